@@ -46,14 +46,14 @@ WHAT = {
     "C44-a": ("data/pools: remembered and pending slices share a backing array", ""),
     "C46-a": ("kmd sqlite wallet driver: stale max-key-index after skipping an imported key", ""),
     "C47-a": ("generickv: txtail delete-before-insert differs from SQLite on a wide flush", "storesim commits were at most 3 rounds wide: one commit in eight now spans 4-10 rounds (wider than the txtail horizon)"),
-    "C01-b": ("agreement/player.go certThreshold: falls back to the locally staged value when the certificate is from another period (commits W under a certificate for V)", "see current column; if missed by C01: needs one node alone staging W while a later period certifies V - not reached by the sampled schedules; the certificate/block mismatch it produces is what C03's commit oracle looks at"),
+    "C01-b": ("agreement/player.go certThreshold: falls back to the locally staged value when the certificate is from another period (commits W under a certificate for V)", "none: C01 (two digests for one round) did not reach it in 450 runs - it needs one node alone staging W while a later period certifies V - but the block/certificate mismatch it produces is exactly what C03's commit oracle checks, and the C03 check catches it"),
     "C02-b": ("agreement/actions.go checkpointAction: a persist ERROR is dropped if the vote task is not yet waiting (votes leave with nothing on disk)", "two additions: write faults on the crash DB (an injected BEFORE INSERT trigger makes every persist fail, old data stays) and 'persist first' runs in which the verification pool waits for the persists (the other legal order of the two concurrent activities)"),
     "C03-b": ("agreement/voteTracker.go: an equivocator's stale vote stays in the stored vote set (bundle lists it twice)", ""),
     "C08-b": ("ledger/lruaccts.go: a cached 'deleted' placeholder is replaced by a stale row read (closed account resurrected in the cache)", "NOT strengthened (time): needs a historical DB read of the account queued before the flush of its close and no lookup of it in between - the check's frequent sampled lookups heal the cache"),
     "C09-b": ("ledger/blockqueue.go: notifyCommit announces the newest QUEUED round as committed (Wait() confirms unflushed blocks)", "durability probe in the backlog scenario: with two blocks queued behind a stopped syncer, whatever Ledger.Wait confirms must survive a crash at that instant"),
     "C11-b": ("ledger/eval/cow.go checkDup: an in-block lease that expires in the block's own round counts as expired", ""),
     "C16-b": ("sqlitedriver/catchpoint.go: ResetCatchpointStagingBalances no longer drops catchpointbalances (rows of a failed attempt survive the retry)", ""),
-    "C44-b": ("ledger/eval/cow.go checkDup (same line as C11-b, found independently): pending lease treated as expired one round early", ""),
+    "C44-b": ("ledger/eval/cow.go checkDup (same line as C11-b, found independently): pending lease treated as expired one round early", "the pool oracle replayed the pending groups on the same (changed) evaluator; added an oracle that does not use it: no two pending transactions of one sender under one lease"),
     "C12-a": ("ledgercore/totals.go: reward units counted from money incl. pending rewards (same edit as C18-a, found independently)", "none: the first evaluation ran only 31 runs on a fully loaded machine; with 150 s it is caught by the generic totals oracle"),
 }
 
